@@ -138,6 +138,12 @@ class Mk:
         self.obs[f"{name}.__cls__"] = ("const", cls)
         return self.st.alloc(Obj(cls, f), name)
 
+    def instance(self, target, fields):
+        """object of a repository class (methods resolve along its real MRO), fields given"""
+        mod, node, _ = source.locate(target)
+        cls = self.interp.module_attr(self.st, mod, node.name)
+        return self.st.alloc(Obj(cls, dict(fields)), node.name)
+
     def record(self, name, fields):
         """dict with concrete string keys -> symbolic values (numba typed dicts, parameters)"""
         d = {}
@@ -406,6 +412,7 @@ def verify_contract(prop, contract, registry=None, options=None, sizes=None, onl
         st = State()
         st.env = Env(module=mod)
         mk = Mk(st, sizes)
+        mk.interp = interp
         ctx.mk = mk
         try:
             args = params(mk)
@@ -565,11 +572,24 @@ def _extract_model(m, obs):
     return out
 
 
+_DEADLINE = [None]
+
+
 def _z3_check(fs, timeout_ms):
+    """one z3 query; never longer than what is left of the obligation's total budget (the parent
+    process additionally kills a worker that overruns: some tactics ignore the soft timeout)"""
+    if _DEADLINE[0] is not None:
+        left = (_DEADLINE[0] - time.time()) * 1000
+        if left < 200:
+            return z3.unknown, None
+        timeout_ms = min(timeout_ms, left)
     s = z3.Solver()
     s.set("timeout", int(timeout_ms))
     s.add(*fs)
-    r = s.check()
+    try:
+        r = s.check()
+    except z3.Z3Exception:
+        r = z3.unknown
     return r, s
 
 
@@ -580,6 +600,7 @@ def _solve_one(args):
     idx, timeout_ms = args
     ob, obs = _OBLS[idx]
     t0 = time.time()
+    _DEADLINE[0] = t0 + 2.0 * timeout_ms / 1000.0     # total budget of this obligation over all strategies
     attempts = []
     model = None
     try:
@@ -587,7 +608,18 @@ def _solve_one(args):
     except Exception as e:
         return (idx, "undecided", "none", time.time() - t0, None, f"encoding error: {type(e).__name__}: {e}")
     trig = _has_trig(fs)
+    nonlinear = _has_nonlinear(fs)
     short = min(4000, timeout_ms)
+    if nonlinear:
+        # products of symbolic terms: the abstraction (sound for unsat) is tried first, it is the
+        # robust route; the exact nonlinear engine comes afterwards
+        try:
+            r0, _ = _z3_check(T.abstract_nonlinear(fs), min(timeout_ms, 10000))
+            attempts.append(f"z3[nl-abstraction]={r0}")
+            if r0 == z3.unsat:
+                return (idx, "discharged", "z3+nl-abstraction", time.time() - t0, None, " ".join(attempts))
+        except Exception as e:
+            attempts.append(f"nl-abstraction-error={type(e).__name__}:{e}")
     r, s = _z3_check(fs, short)
     attempts.append(f"z3={r}")
     if r == z3.unsat:
@@ -607,22 +639,17 @@ def _solve_one(args):
         fs = fst
     if model is None:
         try:
-            fa = T.abstract_nonlinear(fs)
-            r3, _ = _z3_check(fa, min(timeout_ms, 15000))
-            attempts.append(f"z3[nl-abstraction]={r3}")
-            if r3 == z3.unsat:
-                return (idx, "discharged", "z3+nl-abstraction", time.time() - t0, None, " ".join(attempts))
             fi = ob.formulas(extra_trig=trig, instantiate=True)
+            r7, _ = _z3_check(T.abstract_nonlinear(fi), min(timeout_ms, 15000))
+            attempts.append(f"z3[inst+nl-abstraction]={r7}")
+            if r7 == z3.unsat:
+                return (idx, "discharged", "z3+nl-abstraction", time.time() - t0, None, " ".join(attempts))
             r6, _ = _z3_check(fi, min(timeout_ms, 10000))
             attempts.append(f"z3[inst]={r6}")
             if r6 == z3.unsat:
                 return (idx, "discharged", "z3+instantiation", time.time() - t0, None, " ".join(attempts))
-            r7, _ = _z3_check(T.abstract_nonlinear(fi), timeout_ms)
-            attempts.append(f"z3[inst+nl-abstraction]={r7}")
-            if r7 == z3.unsat:
-                return (idx, "discharged", "z3+nl-abstraction", time.time() - t0, None, " ".join(attempts))
         except Exception as e:
-            attempts.append(f"nl-abstraction-error={type(e).__name__}:{e}")
+            attempts.append(f"inst-error={type(e).__name__}:{e}")
         if timeout_ms > short:
             r4, s4 = _z3_check(fs, timeout_ms)
             attempts.append(f"z3[full]={r4}")
@@ -631,8 +658,8 @@ def _solve_one(args):
             if r4 == z3.sat:
                 return (idx, "refuted", "z3", time.time() - t0, _extract_model(s4.model(), obs), " ".join(attempts))
     try:
-        r5 = _cvc5_check(fs, timeout_ms)
-        attempts.append(f"cvc5={r5}")
+        r5 = _cvc5_check(fs, min(timeout_ms, 15000))
+        attempts.append(f"cvc5={r5[:40]}")
         if r5 == "unsat":
             return (idx, "discharged", "cvc5", time.time() - t0, None, " ".join(attempts))
     except Exception as e:
@@ -640,6 +667,19 @@ def _solve_one(args):
     if model is not None:
         return (idx, "refuted", "z3", time.time() - t0, model, " ".join(attempts))
     return (idx, "undecided", "none", time.time() - t0, None, " ".join(attempts))
+
+
+def _has_nonlinear(fs):
+    for f in fs:
+        for x in T.subterms(f).values():
+            if z3.is_app(x):
+                k = x.decl().kind()
+                if k == z3.Z3_OP_MUL:
+                    if sum(1 for c in x.children() if not (z3.is_rational_value(c) or z3.is_int_value(c))) >= 2:
+                        return True
+                elif k == z3.Z3_OP_DIV and not (z3.is_rational_value(x.arg(1)) or z3.is_int_value(x.arg(1))):
+                    return True
+    return False
 
 
 def _has_trig(fs):
@@ -668,8 +708,21 @@ def _cvc5_check(fs, timeout_ms):
         os.unlink(p)
 
 
+def _worker(idx, timeout_ms, conn):
+    try:
+        res = _solve_one((idx, timeout_ms))
+    except Exception as e:
+        res = (idx, "undecided", "none", 0.0, None, f"worker exception {type(e).__name__}: {e}")
+    try:
+        conn.send(res)
+    finally:
+        conn.close()
+
+
 def solve(reports, timeout_ms=20000, procs=None):
-    """Discharges all obligations of the reports in a fork pool (z3 terms are inherited)."""
+    """Discharges all obligations: one forked process per obligation (z3 terms are inherited, every
+    worker starts from the same parent state, so verdicts do not depend on scheduling), at most
+    `procs` at a time, each killed by the parent if it overruns its total budget."""
     global _OBLS
     _OBLS = []
     for rep in reports:
@@ -679,14 +732,45 @@ def solve(reports, timeout_ms=20000, procs=None):
     n = len(_OBLS)
     if n == 0:
         return
-    procs = procs or min(16, max(1, n))
+    procs = procs or 16
     ctxm = mp.get_context("fork")
-    jobs = [(i, timeout_ms) for i in range(n)]
-    if procs == 1 or n == 1:
-        res = [_solve_one(j) for j in jobs]
-    else:
-        with ctxm.Pool(procs, maxtasksperchild=1) as pool:
-            res = pool.map(_solve_one, jobs, chunksize=1)
-    for idx, status, backend, dt, model, reason in res:
+    hard = 2.0 * timeout_ms / 1000.0 + 20.0
+    pending = list(range(n))
+    running = {}
+    results = {}
+    while pending or running:
+        while pending and len(running) < procs:
+            i = pending.pop(0)
+            pc, cc = ctxm.Pipe(duplex=False)
+            p = ctxm.Process(target=_worker, args=(i, timeout_ms, cc), daemon=True)
+            p.start()
+            cc.close()
+            running[i] = (p, pc, time.time())
+        done = []
+        for i, (p, pc, t0) in running.items():
+            got = None
+            try:
+                if pc.poll(0):
+                    got = pc.recv()
+            except (EOFError, OSError):
+                got = (i, "undecided", "none", time.time() - t0, None, "worker died without a result")
+            if got is None and time.time() - t0 > hard:
+                p.kill()
+                got = (i, "undecided", "none", time.time() - t0, None, f"killed after {hard:.0f}s (budget exceeded)")
+            if got is None and not p.is_alive():
+                try:
+                    got = pc.recv() if pc.poll(0.2) else (i, "undecided", "none", time.time() - t0, None, "worker died without a result")
+                except (EOFError, OSError):
+                    got = (i, "undecided", "none", time.time() - t0, None, "worker died without a result")
+            if got is not None:
+                results[i] = got
+                done.append(i)
+        for i in done:
+            p, pc, _ = running.pop(i)
+            p.join(timeout=1)
+            pc.close()
+        if not done:
+            time.sleep(0.01)
+    for idx, status, backend, dt, model, reason in results.values():
         ob = _OBLS[idx][0]
         ob.status, ob.backend, ob.time, ob.model, ob.reason = status, backend, dt, model, reason
